@@ -8,6 +8,7 @@ import (
 	"encoding/json"
 	"fmt"
 	"net/netip"
+	"strings"
 	"testing"
 	"time"
 
@@ -286,14 +287,68 @@ func c13Seqs(maxLen int) func(yield func(c13Case) bool) {
 	}
 }
 
+// c13OverlapProp: see vkOverlapped. The second application is of another plugin object over another listing (state
+// shared between plugin objects shows), or of the same object.
+func c13OverlapProp(k *verifkit.Kit) func(c c13Case) error {
+	return func(c c13Case) error {
+		if c.SrcErr || len(c.Addrs) == 0 {
+			k.Record(c, false, "overlap:nothing-to-list")
+			return nil
+		}
+		k.Record(c, true, "overlap")
+		ref := func(list []system.IP) string { return fmt.Sprint(verifref.ExpandPrefixes(list)) }
+		render := func(g []ndp.Option, err error) (string, error) {
+			var gp []netip.Prefix
+			for _, o := range g {
+				if pi, ok := o.(*ndp.PrefixInformation); ok {
+					gp = append(gp, netip.PrefixFrom(pi.Prefix, int(pi.PrefixLength)))
+				}
+			}
+			return fmt.Sprint(gp), err
+		}
+		cur := c.Addrs
+		pl := c13Plugin(c, &cur)
+		otherList := vkPermute(c.Addrs, c.Perm)
+		if len(otherList) > 1 {
+			otherList = otherList[1:]
+		}
+		cur2 := otherList
+		other := c13Plugin(c, &cur2)
+		if len(c.Addrs)%2 == 0 {
+			other, otherList = pl, c.Addrs // the same object
+		}
+		orig := pl.Addrs
+		return vkOverlapped("C13",
+			func(gate func()) (string, error) {
+				gp := *pl
+				gp.Addrs = func() ([]system.IP, error) { gate(); return orig() }
+				if other == pl {
+					// the same object must be used by both: gate through the object's own source
+					pl.Addrs = gp.Addrs
+					return render(c13ApplyOn(pl))
+				}
+				return render(c13ApplyOn(&gp))
+			},
+			func() (string, error) { return render(c13ApplyOn(other)) },
+			ref(c.Addrs), ref(otherList),
+			func() (string, error) { return render(c13ApplyOn(pl)) })
+	}
+}
+
 func TestVerif_C13(t *testing.T) {
 	k := verifkit.Start(t, "C13")
 	prop := c13Prop(k)
-	k.Regress(t, func(sub string, raw json.RawMessage) error { return verifkit.Decode(raw, prop) })
+	k.Regress(t, func(sub string, raw json.RawMessage) error {
+		if strings.HasPrefix(sub, "overlapping") {
+			return verifkit.Decode(raw, c13OverlapProp(k))
+		}
+		return verifkit.Decode(raw, prop)
+	})
 	maxLen := 3
 	if k.Thorough() {
 		maxLen = 4
 	}
 	verifkit.Enumerate(k, t, fmt.Sprintf("pool-sequences<=%d", maxLen), true, c13Seqs(maxLen), prop)
 	verifkit.Rapid(k, t, "random-lists", k.N(4000, 1000000), c13Gen, prop)
+	verifkit.Rapid(k, t, "overlapping-applications", k.N(400, 40000), c13Gen, c13OverlapProp(k))
 }
